@@ -85,7 +85,7 @@ def c_name2midi(note_name, result):
 
 
 def c_ps2name(step, alter, octave, result):
-    if isinstance(alter, (int, np.integer)) and -3 <= alter <= 3 and isinstance(octave, (int, np.integer)) and octave >= 0:
+    if isinstance(alter, (int, np.integer)) and -3 <= alter <= 3 and isinstance(octave, (int, np.integer)) and octave >= -1:
         core.CURRENT.check()
         try:
             back = P.note_name_parse(result)
@@ -240,7 +240,7 @@ def c_midi2freq(midi_pitch, a4, result):
 
 
 def c_freq2midi(freq, a4, result):
-    if isinstance(freq, (int, float)) and freq > 0:
+    if isinstance(freq, (int, float, np.integer, np.floating)) and freq > 0:
         core.CURRENT.check()
         x = 69 + 12 * math.log2(freq / a4)
         if result is None or abs(float(result) - x) > 0.5 + 1e-6:
@@ -454,7 +454,7 @@ def run_item(ctx, item):
             for st in (step, step.lower()):
                 ctx.call(M.pitch_spelling_to_midi_pitch, st, alter, octave)
             ctx.call(M.step2pc, step, alter)
-            if octave >= 0:
+            if octave >= -1:
                 name = ctx.call(M.pitch_spelling_to_note_name, step, alter, octave)
                 back = ctx.call(M.note_name_to_pitch_spelling, name)
                 ctx.check()
@@ -485,7 +485,12 @@ def run_item(ctx, item):
             ctx.check()
             if back != m:
                 ctx.violation("midi-spelling-midi-roundtrip", f"{m} -> {(st, al, oc)} -> {back}", {"arg": m})
-            ctx.call(M.midi_pitch_to_pitch_spelling, np.int64(m))
+            for width in (np.int64, np.uint8, np.int8, np.int32, np.uint16):
+                if m <= np.iinfo(width).max:
+                    r = ctx.call(M.midi_pitch_to_pitch_spelling, width(m))
+                    ctx.check()
+                    if tuple(r) != (st, al, oc):
+                        ctx.violation("midi_pitch_to_pitch_spelling-depends-on-integer-width", f"{width.__name__}({m}) -> {tuple(r)}, int -> {(st, al, oc)}", {"arg": m, "width": width.__name__})
             ctx.case(["midi", m], m % 12 in (1, 3, 6, 8, 10))
     elif kind == "keys":
         seen_names = {}
@@ -606,6 +611,11 @@ def run_item(ctx, item):
                 ctx.check()
                 if back is None or int(back) != m:
                     ctx.violation("frequency-midi-roundtrip", f"{m} -> {f} -> {back!r}", {"arg": m, "a4": a4})
+                for width in (np.float32, np.float64):
+                    back = ctx.call(M.frequency_to_midi_pitch, width(f), a4)
+                    ctx.check()
+                    if back is None or int(back) != m:
+                        ctx.violation("frequency-midi-roundtrip", f"{m} -> {width.__name__}({f}) -> {back!r}", {"arg": m, "a4": a4, "width": width.__name__})
                 ctx.case(["freq", m, a4], a4 != 440.0)
         arr = np.arange(128)
         f = ctx.call(M.midi_pitch_to_frequency, arr)
